@@ -6,12 +6,20 @@
 // (sequential consistency).  The real library code runs: isal_self_tests() / isal_sha1_ctx_mgr_init() ->
 // asm_check_self_tests_status (load, lock cmpxchg, spin) -> _aes_self_tests/_sha_self_tests (link-time wrapped stubs with
 // a generated outcome and a generated number of yield points) -> asm_set_self_tests_status.
+// Second engine (mode 3, "parallel"): the same first calls made by real OS threads released together on different cores,
+// many rounds per case with generated release skews.  The single-step scheduler interleaves whole instructions, so it
+// cannot tell an atomic read-modify-write from a non-atomic one; only truly simultaneous execution can.
 #include "../common/isal.hpp"
 #include "../common/json.hpp"
 #include "../common/pbt.hpp"
+#include <atomic>
+#include <chrono>
 #include <csignal>
+#include <pthread.h>
 #include <sys/mman.h>
+#include <thread>
 #include <ucontext.h>
+#include <x86intrin.h>
 
 extern "C" {
 int asm_check_self_tests_status(void);
@@ -46,14 +54,14 @@ static volatile int g_aes_entries = 0, g_sha_entries = 0, g_tests_done = 0, g_wo
 static volatile uint64_t g_sink = 0;
 extern "C" int __wrap__aes_self_tests(void)
 {
-        g_aes_entries++;
+        __atomic_fetch_add(&g_aes_entries, 1, __ATOMIC_SEQ_CST);
         g_runner = g_cur;
         for (int i = 0; i < g_yield; i++) g_sink++;
         return g_outcome_fail;
 }
 extern "C" int __wrap__sha_self_tests(void)
 {
-        g_sha_entries++;
+        __atomic_fetch_add(&g_sha_entries, 1, __ATOMIC_SEQ_CST);
         for (int i = 0; i < g_yield; i++) g_sink++;
         g_tests_done = 1;
         return 0;
@@ -61,7 +69,7 @@ extern "C" int __wrap__sha_self_tests(void)
 extern "C" void __wrap__sha1_ctx_mgr_init(void *mgr)
 {
         // "cryptographic work" of the cheap approved entry point: must not start before the self tests finished and passed
-        if (!g_tests_done || g_outcome_fail) g_work_before_done++;
+        if (!g_tests_done || g_outcome_fail) __atomic_fetch_add(&g_work_before_done, 1, __ATOMIC_SEQ_CST);
         (void) mgr;
 }
 
@@ -100,6 +108,8 @@ struct Case {
         std::vector<int> kinds;
         std::vector<uint8_t> bytes;                 // mode 0: (thread choice, burst length) per decision
         std::vector<std::pair<uint32_t, int>> pre;  // mode 1: (global step index, thread to switch to)
+        int rounds = 0;                             // mode 3: number of simultaneous-first-call rounds
+        std::vector<int> skew;                      // mode 3: per-thread release delay (pause iterations), rotated every round
 };
 static const Case *g_case = nullptr;
 static size_t g_sched_pos = 0;
@@ -219,6 +229,12 @@ static J to_json(const Case &c)
         J p = J::arr();
         for (auto &x : c.pre) { J e = J::arr(); e.push(J(x.first)); e.push(J(x.second)); p.push(e); }
         j.set("pre", p);
+        if (c.mode == 3) {
+                j.set("rounds", c.rounds);
+                J sk = J::arr();
+                for (int x : c.skew) sk.push(J(x));
+                j.set("skew", sk);
+        }
         return j;
 }
 static Case from_json(const J &j)
@@ -228,11 +244,129 @@ static Case from_json(const J &j)
         for (auto &x : j.at("kinds").a) c.kinds.push_back((int) x.num());
         for (auto &x : j.at("bytes").a) c.bytes.push_back((uint8_t) x.num());
         for (auto &x : j.at("pre").a) c.pre.emplace_back((uint32_t) x.at((size_t) 0).unum(), (int) x.at((size_t) 1).num());
+        if (c.mode == 3) {
+                c.rounds = j.num("rounds", 1);
+                for (auto &x : j.at("skew").a) c.skew.push_back((int) x.num());
+        }
         return c;
+}
+
+// ---- mode 3: real threads on real cores
+struct PT {
+        std::thread th;
+        volatile int kind = 0, skew = 0;
+        volatile int ret1 = -99, ret2 = -99, tests_done_at_ret1 = -1, published_at_ret1 = -1, unpublished_before = 0;
+        char pad[64];
+};
+static PT g_pt[MAXT];
+static std::atomic<uint64_t> g_go{ 0 };
+static std::atomic<int> g_ready{ 0 }, g_finished{ 0 };
+static std::atomic<bool> g_quit{ false };
+static inline void relax(unsigned &spins)
+{
+        if (++spins < 2000) _mm_pause();
+        else sched_yield();
+}
+static void par_thread(int i)
+{
+        uint64_t seen = g_go.load(); // (the release counter is global; this thread has not been counted ready yet)
+        for (;;) {
+                g_ready.fetch_add(1);
+                uint64_t g;
+                unsigned sp = 0;
+                while ((g = g_go.load(std::memory_order_acquire)) == seen) relax(sp);
+                seen = g;
+                if (g_quit.load()) return;
+                for (int k = g_pt[i].skew; k > 0; k--) _mm_pause();
+                uint32_t st = *status_ptr();
+                g_pt[i].unpublished_before = (st == 2 || st == 3);
+                int r = g_pt[i].kind == 0 ? isal_self_tests() : isal_sha1_ctx_mgr_init((ISAL_SHA1_HASH_CTX_MGR *) g_mgr[i]);
+                g_pt[i].ret1 = r;
+                g_pt[i].tests_done_at_ret1 = g_tests_done;
+                st = *status_ptr();
+                g_pt[i].published_at_ret1 = (st == 0 || st == 1) ? 1 : 0;
+                g_pt[i].ret2 = isal_self_tests();
+                g_finished.fetch_add(1);
+        }
+}
+static bool run_parallel(const Case &c, pbt::Ctx &ctx)
+{
+        int n = c.n < 2 ? 2 : c.n > MAXT ? MAXT : c.n;
+        g_quit.store(false);
+        g_ready.store(0);
+        for (int i = 0; i < n; i++) g_pt[i].th = std::thread(par_thread, i);
+        g_outcome_fail = c.fail;
+        g_yield = c.yield;
+        long rounds = c.rounds < 1 ? 1 : c.rounds;
+        if (ctx.replaying) rounds = rounds * 500 < 300000 ? 300000 : rounds * 500; // a replay keeps trying: the hardware owns this schedule
+        int want = c.fail ? ISAL_CRYPTO_ERR_SELF_TEST : 0;
+        uint64_t contended = 0;
+        bool ok = true;
+        ctx.label("threads=" + std::to_string(n));
+        ctx.label(c.fail ? "outcome=fail" : "outcome=pass");
+        ctx.label("mode=parallel-real-threads");
+        for (long r = 0; r < rounds && ok; r++) {
+                unsigned sp = 0;
+                while (g_ready.load() < n) relax(sp);
+                g_ready.store(0);
+                g_finished.store(0);
+                g_aes_entries = g_sha_entries = g_tests_done = g_work_before_done = 0;
+                for (int i = 0; i < n; i++) {
+                        g_pt[i].kind = i < (int) c.kinds.size() ? c.kinds[i] : 0;
+                        g_pt[i].skew = c.skew.empty() ? 0 : c.skew[(i + r) % c.skew.size()];
+                        g_pt[i].ret1 = g_pt[i].ret2 = -99;
+                }
+                asm_set_self_tests_status(2);
+                g_go.fetch_add(1, std::memory_order_release);
+                auto t0 = std::chrono::steady_clock::now();
+                bool timeout = false;
+                sp = 0;
+                while (g_finished.load() < n) {
+                        relax(sp);
+                        if ((sp & 1023) == 0 && std::chrono::steady_clock::now() - t0 > std::chrono::seconds(20)) { timeout = true; break; }
+                }
+                if (timeout) {
+                        // a wall-clock bound is not an oracle: release possible spinners and call this round inconclusive
+                        asm_set_self_tests_status(0);
+                        while (g_finished.load() < n) relax(sp);
+                        ctx.label("parallel-round-timeout(inconclusive)");
+                        continue;
+                }
+                int unp = 0;
+                for (int i = 0; i < n; i++) unp += g_pt[i].unpublished_before;
+                if (unp >= 2) contended++;
+                if (g_aes_entries != 1 || g_sha_entries != 1)
+                        if (ctx.fail("not-exactly-once", "self tests executed " + std::to_string(g_aes_entries) + " (aes) / " + std::to_string(g_sha_entries) + " (sha) times with " +
+                                                                 std::to_string(n) + " threads making their first call at the same time on different cores (round " + std::to_string(r) + ")"))
+                                ok = false;
+                for (int i = 0; i < n && ok; i++) {
+                        if (g_pt[i].ret1 == 0 && (!g_pt[i].tests_done_at_ret1 || !g_pt[i].published_at_ret1))
+                                if (ctx.fail("early-success", "parallel thread " + std::to_string(i) + " returned success before the self tests had finished")) ok = false;
+                        if (ok && g_pt[i].ret1 != want)
+                                if (ctx.fail("verdict", "parallel thread " + std::to_string(i) + " observed " + std::to_string(g_pt[i].ret1) + " but the self tests " + (c.fail ? "failed" : "passed"))) ok = false;
+                        if (ok && g_pt[i].ret2 != want)
+                                if (ctx.fail("verdict-second-call", "parallel thread " + std::to_string(i) + " observed " + std::to_string(g_pt[i].ret2) + " on its second call")) ok = false;
+                }
+                if (ok && g_work_before_done)
+                        if (ctx.fail("work-before-selftest", "an approved entry point started its work before the self tests had finished and passed (parallel threads)")) ok = false;
+        }
+        {
+                unsigned sp = 0;
+                while (g_ready.load() < n) relax(sp);
+                g_quit.store(true);
+                g_go.fetch_add(1, std::memory_order_release);
+                for (int i = 0; i < n; i++) g_pt[i].th.join();
+        }
+        asm_set_self_tests_status(0);
+        ctx.label("parallel rounds", (uint64_t) rounds);
+        ctx.label("parallel rounds with >=2 threads arriving before the verdict", contended);
+        ctx.nontrivial = contended > 0;
+        return ok;
 }
 
 static bool run(const Case &c, pbt::Ctx &ctx)
 {
+        if (c.mode == 3) return run_parallel(c, ctx);
         auto failx = [&](const std::string &k, const std::string &m) { return ctx.fail(k, m); };
         g_case = &c;
         g_n = c.n;
@@ -401,6 +535,16 @@ int main(int argc, char **argv)
                 c.fail = coin(1, 3);
                 c.yield = weighted({ 2, 3, 1 }) == 0 ? 0 : rng<int>(1, 40);
                 for (int i = 0; i < c.n; i++) c.kinds.push_back(coin(1, 3));
+                if (coin(1, (int) ctx.optnum("par_every", 12))) {
+                        c.mode = 3;
+                        c.n = rng<int>(2, MAXT);
+                        c.kinds.clear();
+                        for (int i = 0; i < c.n; i++) c.kinds.push_back(coin(1, 3));
+                        c.rounds = rng<int>(20, 400);
+                        int k = rng<int>(1, c.n + 1);
+                        for (int i = 0; i < k; i++) c.skew.push_back(coin(1, 2) ? 0 : rng<int>(0, 40));
+                        return c;
+                }
                 c.mode = coin(1, 3);
                 if (c.mode == 0) {
                         int k = rng<int>(0, 120);
